@@ -378,10 +378,53 @@ def gen_keepalive(rng, idx):
     return s.out()
 
 
+# ----------------------------------------------------------------------------- crash-point enumeration
+def _bases():
+    """small deterministic base scenarios; each is (name, prefix-steps, body-steps); the crash point is armed between them"""
+    B = []
+    def pub(i, q, **kw): d = dict(op="pub", id=i, qos=q, msg="m%d" % i); d.update(kw); return d
+    conn_rm1 = [dict(op="connack", sticky=1, props=[[33, 1]])]
+    conn_rm2 = [dict(op="connack", sticky=1, props=[[33, 2]])]
+    B.append(("pubs", [], [pub(10, 1), pub(11, 2), dict(op="sub", id=12, topics=["f/a", "f/b"]), pub(13, 0), dict(op="unsub", id=14, topics=["f/a"])]))
+    B.append(("rm1", conn_rm1, [pub(10, 1), pub(11, 2), pub(12, 1), pub(13, 0), pub(14, 2)]))
+    B.append(("rm2held", conn_rm2, [dict(op="hold"), pub(10, 2), pub(11, 1), pub(12, 1), dict(op="ack", i=1), dict(op="ack", i=0), pub(13, 2), dict(op="unhold")]))
+    B.append(("inbound", [], [dict(op="sub", id=10, topics=["in/#"]), dict(op="bpub", qos=1, msg="x1"), dict(op="bpub", qos=2, msg="x2"),
+                              dict(op="bpub", qos=0, msg="x3"), dict(op="bpub", qos=2, msg="x4"), dict(op="bpub", qos=1, msg="x5")]))
+    B.append(("inheld", [], [dict(op="hold", kinds=["PUBREL"]), dict(op="bpub", qos=2, msg="x1"), dict(op="bpub", qos=2, msg="x2"), dict(op="ack", i=0),
+                             dict(op="bpub", qos=1, msg="x3"), dict(op="unhold")]))
+    B.append(("mixed", conn_rm1, [pub(10, 2), dict(op="bpub", qos=2, msg="x1"), pub(11, 1), dict(op="bpub", qos=1, msg="x2"), dict(op="sub", id=12, topics=["q"]), pub(13, 2)]))
+    B.append(("cancel", conn_rm1, [pub(10, 1), pub(11, 1), pub(12, 2), dict(op="cancel_op", id=11, type="total"), pub(13, 1)]))
+    B.append(("chunk", [], [dict(op="set", chunk=1), pub(10, 2), dict(op="bpub", qos=2, msg="x1"), pub(11, 1)]))
+    return B
+
+
+def gen_crash_all(thorough=False):
+    out = []
+    for (name, pre, body) in _bases():
+        head = [dict(op="cfg", hosts=2, ka=0, tseed=7)] + pre + [dict(op="run", id=1), dict(op="recv", id=2, loop=1)]
+        tail = [dict(op="quiesce", ms=150000)]
+        def emit(tag, arm):
+            out.append(json.dumps(dict(name="crash-%s-%s" % (name, tag), steps=head + arm + body + tail), separators=(",", ":")))
+        emit("none", [])
+        for k in range(1, 13 if not thorough else 17):
+            for dl in ((0, -1) if not thorough else (0, -1, 1, 3, 7)):
+                for ec in (("reset",) if not thorough else ("reset", "broken_pipe", "timed_out")):
+                    emit("w%d-d%d-%s" % (k, dl, ec), [dict(op="set", wfault_at=k, wfault_deliver=dl, wfault_ec=ec)])
+        for n in range(1, 70 if not thorough else 140):
+            emit("r%d" % n, [dict(op="set", rfault_after=n)])
+        if thorough:   # double faults: a write crash followed by a read crash on the next connection
+            for k in range(1, 9):
+                for n in range(4, 40, 3):
+                    emit("w%d-r%d" % (k, n), [dict(op="set", wfault_at=k, wfault_deliver=-1), dict(op="set", rfault_after=n)])
+    return out
+
+
 FAMILIES = dict(send=gen_send, recv=gen_recv, lifecycle=gen_lifecycle, connect=gen_connect, caps=gen_caps, keepalive=gen_keepalive)
 
 
 def generate(family, seed, count):
+    if family == "crash":
+        return gen_crash_all(thorough=count > 5000)
     rng = random.Random("%s-%d" % (family, seed))
     f = FAMILIES[family]
     return [f(rng, i) for i in range(count)]
